@@ -138,11 +138,12 @@ ParseAllowed(bs, res) ==
 Allowed(e) ==
   CASE e.op = "parse" -> ParseAllowed(e.bytes, e.res)
     [] e.op = "rt" ->
-         \* write a view (pixels e.pix as read cell by cell) and read it back
+         \* write a view (pixels e.pix as read cell by cell; borrowed immutably, mutably or as a slice of a slice: e.vk) and read it back
          /\ e.wres = "ok"
          /\ e.bytes = Encode(e.w, e.h, e.pix)
          /\ ParseAllowed(e.bytes, e.res)
-         /\ (e.w >= 1 /\ e.h >= 1) =>
+         \* (an image without rows is an image too; one without columns cannot have rows)
+         /\ (e.w >= 1 /\ e.h >= 0) =>
               (e.res[1] = "ok" /\ e.res[2] = e.w /\ e.res[3] = e.h /\ e.res[5] = e.pix)
     [] OTHER -> FALSE
 =============================================================================
